@@ -1,6 +1,6 @@
 (* C03 - Allowable expenditure is conserved.  Statements only. *)
 From Coq Require Import QArith Qcanon ZArith List Bool Sorted.
-Require Import CGT.Model.Num CGT.Model.Match CGT.Proofs.MatchFacts CGT.Proofs.MatchInv CGT.Proofs.MatchCost CGT.Proofs.Examples.
+Require Import CGT.Model.Num CGT.Model.Match CGT.Proofs.MatchFacts CGT.Proofs.MatchInv CGT.Proofs.MatchCost CGT.Proofs.PrepassFacts CGT.Proofs.Examples.
 Import ListNotations.
 Open Scope Qc_scope.
 
@@ -20,6 +20,16 @@ Theorem C03_cost_conservation : forall w ds offs s, wf_days ds -> sorted_days ds
   = qsum (map (fun d => if hasbuy d then bcost d + offset_of offs (dt d) else 0) ds).
 Proof. exact run_cost_conservation. Qed.
 
+(* The property as stated: the allowable cost of all legs plus the cost left in the closing pool equals the
+   total cost of all acquisitions (quantity x price + fees) plus the accumulation amounts minus the net capital
+   returns THAT TOOK EFFECT (effective_total: the security had been bought and shares were held, by the pre-pass's
+   own bookkeeping, when the event arrived). *)
+Theorem C03_full_conservation : forall w ds offs s, wf_days ds -> sorted_days ds ->
+  prepass false [] ds = inr offs -> run w ds = inr s ->
+  qsum (map (fun x : Z * list leg => qsum (map lg_cost (snd x))) (m_disp s)) + m_pc s
+  = qsum (map bcost' ds) + effective_total false [] ds.
+Proof. exact run_full_conservation. Qed.
+
 (* one adjustment (capital return / accumulation) is apportioned in full over the lots held *)
 Theorem C03_adjustment_exact : forall ls a, (forall l, In l ls -> 0 <= pl_held l) -> total_held ls <> 0 ->
   offs_total (apply_adj ls a) = offs_total ls + a.
@@ -31,3 +41,4 @@ Proof. split; [exact ex1_wf|]. split; [exact ex1_sorted|]. eexists. eexists. spl
 Print Assumptions C03_pool_removal_conserves.
 Print Assumptions C03_cost_conservation.
 Print Assumptions C03_adjustment_exact.
+Print Assumptions C03_full_conservation.
